@@ -9,6 +9,7 @@ import (
 	"fmt"
 	"os"
 	"path/filepath"
+	"regexp"
 	"sort"
 	"strings"
 )
@@ -60,6 +61,8 @@ type Result struct {
 	Exhaustive bool                   `json:"exhaustive"`
 	Rule       string                 `json:"rule"`
 	KnownHits  []string               `json:"known_hits,omitempty"`
+	// ShardOffsets maps a case file name to the index of its first case
+	ShardOffsets map[string]int `json:"shard_offsets,omitempty"`
 }
 
 // GoFailure is a violation decided on the Go side (no model involved), e.g. a hang,
@@ -72,7 +75,9 @@ type GoFailure struct {
 }
 
 type Writer struct {
-	Dir    string
+	Dir string
+	// Shards > 1 splits the cases over cases_1.v .. cases_N.v (evaluated in parallel by ./check)
+	Shards int
 	Res    Result
 	hashes map[string]bool
 	counts map[string]int
@@ -106,24 +111,71 @@ func (w *Writer) Fail(f GoFailure) { w.Res.GoFailures = append(w.Res.GoFailures,
 // checkFn is the Gallina function : case -> N (0 = agree, 1 = model/impl differ with oracle
 // true, 2 = oracle false), applied to every case.
 func (w *Writer) Finish(imports []string, caseType, checkFn string) error {
-	var sb strings.Builder
-	sb.WriteString("From Coq Require Import String.\n")
-	for _, im := range imports {
-		sb.WriteString("From Rend Require Import " + im + ".\n")
+	nsh := w.Shards
+	if nsh < 1 {
+		nsh = 1
 	}
-	sb.WriteString("Open Scope N_scope.\nOpen Scope string_scope.\n")
-	sb.WriteString("Definition cases : list (" + caseType + ") := [\n")
-	for i, c := range w.Res.Cases {
-		if i > 0 {
-			sb.WriteString(";\n")
+	if nsh > len(w.Res.Cases) {
+		nsh = len(w.Res.Cases)
+	}
+	if nsh < 1 {
+		nsh = 1
+	}
+	per := (len(w.Res.Cases) + nsh - 1) / nsh
+	w.Res.ShardOffsets = map[string]int{}
+	for sh := 0; sh < nsh; sh++ {
+		lo, hi := sh*per, (sh+1)*per
+		if hi > len(w.Res.Cases) {
+			hi = len(w.Res.Cases)
 		}
-		sb.WriteString("  " + c.Coq)
-	}
-	sb.WriteString("\n].\n")
-	sb.WriteString("Definition bad := Eval vm_compute in Rend.base.Harness.bad_cases (" + checkFn + ") cases.\n")
-	sb.WriteString("Print bad.\n")
-	if err := os.WriteFile(filepath.Join(w.Dir, "cases.v"), []byte(sb.String()), 0o644); err != nil {
-		return err
+		if lo > hi {
+			lo = hi
+		}
+		var sb strings.Builder
+		sb.WriteString("From Coq Require Import String Uint63.\n")
+		for _, im := range imports {
+			sb.WriteString("From Rend Require Import " + im + ".\n")
+		}
+		sb.WriteString("Open Scope N_scope.\nOpen Scope string_scope.\n")
+		// intern the byte-string literals of this shard: each distinct (hx "..") longer than
+		// 4 bytes becomes one definition, packed 7 bytes per primitive integer
+		in := map[string]string{}
+		var defs strings.Builder
+		body := make([]string, 0, hi-lo)
+		for _, c := range w.Res.Cases[lo:hi] {
+			body = append(body, hxRe.ReplaceAllStringFunc(c.Coq, func(m string) string {
+				h := m[5 : len(m)-2]
+				if len(h) <= 64 {
+					return packHex(h)
+				}
+				if name, ok := in[h]; ok {
+					return name
+				}
+				name := fmt.Sprintf("b_%d", len(in))
+				in[h] = name
+				fmt.Fprintf(&defs, "Definition %s : bytes := %s.\n", name, packHex(h))
+				return name
+			}))
+		}
+		sb.WriteString(defs.String())
+		sb.WriteString("Definition cases : list (" + caseType + ") := [\n")
+		for i, c := range body {
+			if i > 0 {
+				sb.WriteString(";\n")
+			}
+			sb.WriteString("  " + c)
+		}
+		sb.WriteString("\n].\n")
+		sb.WriteString("Definition bad := Eval vm_compute in Rend.base.Harness.bad_cases (" + checkFn + ") cases.\n")
+		sb.WriteString("Print bad.\n")
+		name := "cases.v"
+		if nsh > 1 {
+			name = fmt.Sprintf("cases_%d.v", sh+1)
+		}
+		w.Res.ShardOffsets[name] = lo
+		if err := os.WriteFile(filepath.Join(w.Dir, name), []byte(sb.String()), 0o644); err != nil {
+			return err
+		}
 	}
 	keys := make([]string, 0, len(w.counts))
 	for k := range w.counts {
@@ -137,6 +189,26 @@ func (w *Writer) Finish(imports []string, caseType, checkFn string) error {
 	w.Res.Stats["distribution"] = dist
 	b, _ := json.MarshalIndent(w.Res, "", " ")
 	return os.WriteFile(filepath.Join(w.Dir, "result.json"), b, 0o644)
+}
+
+var hxRe = regexp.MustCompile(`\(hx "[0-9a-f]*"\)`)
+
+// packHex turns a hex string into (bx n [w1; w2; ...]%uint63), 7 bytes per word.
+func packHex(h string) string {
+	b, _ := hex.DecodeString(h)
+	var ws []string
+	for i := 0; i < len(b); i += 7 {
+		j := i + 7
+		if j > len(b) {
+			j = len(b)
+		}
+		var v uint64
+		for _, x := range b[i:j] {
+			v = v<<8 | uint64(x)
+		}
+		ws = append(ws, fmt.Sprintf("%d", v))
+	}
+	return fmt.Sprintf("(bx %d [%s]%%uint63)", len(b), strings.Join(ws, "; "))
 }
 
 func Die(format string, a ...interface{}) {
